@@ -441,7 +441,7 @@ Lemma acknack_of_class cf last log w : RB last log w ->
   Forall (osub last (if wp_fa w =? 1 then Some (wp_hr w) else None)) (snd r).
 Proof.
   intros HB. unfold acknack_of. cbn [wp_frags wp_hr wp_fa wp_la wp_an wp_nf wp_hb].
-  set (w1 := mkWP (wp_fa w) (wp_la w) (wp_hr w) (wp_hb w) (wp_an w + 1) (wp_nf w) (wp_frags w)).
+  set (w1 := mkWP (wp_fa w) (wp_la w) (wp_hr w) (wp_hb w) (wp_an w + 1) (wp_nf w + 1) (wp_frags w)).
   assert (HB1 : RB last log w1) by exact HB.
   set (miss := firstn 256 (missing w1)).
   assert (Hmiss : forall x, In x miss -> 1 <= x <= last).
@@ -459,11 +459,9 @@ Proof.
   2:{ cbn [fst snd wp_hr wp_fa wp_la wp_frags wp_hb w1]. repeat split. constructor; [exact Hack|constructor]. }
   destruct (find (fun f => frag_sn f =? s) (wp_frags w)) as [f0|] eqn:Ef0.
   2:{ cbn [fst snd wp_hr wp_fa wp_la wp_frags wp_hb w1]. repeat split. constructor; [exact Hack|constructor]. }
-  match goal with |- context [match ?l with [] => _ | _ :: _ => _ end] => destruct l as [|b t] end.
-  - cbn [fst snd wp_hr wp_fa wp_la wp_frags wp_hb w1]. repeat split. constructor; [exact Hack|constructor].
-  - cbn [fst snd wp_hr wp_fa wp_la wp_frags wp_hb w1]. repeat split. constructor; [exact Hack|].
-    constructor; [|constructor]. cbn [osub].
-    apply find_some in Es. destruct Es as [Es _]. auto.
+  cbn [fst snd wp_hr wp_fa wp_la wp_frags wp_hb w1]. repeat split. constructor; [exact Hack|].
+  constructor; [|constructor]. cbn [osub].
+  apply find_some in Es. destruct Es as [Es _]. auto.
 Qed.
 
 Lemma on_hb_class fr last log cf w f l c pres rel w1 out :
@@ -720,7 +718,7 @@ Proof.
     destruct (find_sn_some _ _ Hin) as [c (Hf & _ & _)]. rewrite Hf.
     match goal with |- AInv (send _ ?o) => assert (Ho : Forall (ndg (rp_fr p) (s_last s) (hr_of s)) o) end.
     { apply Forall_forall. intros d Hd. apply in_flat_map in Hd. destruct Hd as [f [_ Hd]].
-      destruct (f <? nfrags cf c); [|contradiction]. destruct Hd as [<-|[]].
+      destruct ((1 <=? f) && (f <=? nfrags cf c)); [|contradiction]. destruct Hd as [<-|[]].
       unfold ndg; cbn. constructor; [exact I|constructor]. }
     match goal with |- AInv (send _ ?o) => revert Ho; generalize o end. intros o' Ho.
     constructor; cbn; try assumption.
@@ -919,7 +917,6 @@ Proof.
     eapply Forall_impl; [|exact B4]. intros d. apply ndg_mono; [lia|exact I].
 Qed.
 
-Definition not_remove (a : action) : bool := match a with ARemove _ => false | _ => true end.
 
 Lemma CInv_act cf s a : depth cf = 0 -> not_remove a = true -> CInv s -> CInv (fst (act cf s a)).
 Proof.
@@ -1051,11 +1048,6 @@ Qed.
 (* ------------------------------------------------------------------ wait_for_acknowledgments is sound *)
 (* every RELIABLE matched reader (that still exists) has every change the writer holds and that is
    relevant for it *)
-Definition delivered (s : state) : Prop :=
-  forall p r w, s_rp s = Some p -> rp_rel p = true -> s_rd s = Some r -> rd_wp r = Some w ->
-    forall c, In c (s_changes s) -> rp_fr p < c_sn c -> In c (rd_pres r).
-
-Definition ackd (s : state) : bool := is_acked (s_rp s) (s_last s).
 
 Lemma CInv_acked_delivered s : CInv s -> ackd s = true -> delivered s.
 Proof.
@@ -1077,8 +1069,6 @@ Qed.
 
 (* waiters parked earlier are answered while an ACKNACK is processed: at the end of that step the
    acknowledgement test holds as well *)
-Definition npend (s : state) : nat :=
-  length (filter (fun w => match w with WPending => true | _ => false end) (s_waits s)).
 Definition Mono (s s' : state) : Prop :=
   (ackd s = true -> ackd s' = true) /\ (npend s' <= npend s)%nat /\ ((npend s' < npend s)%nat -> ackd s' = true).
 
@@ -1242,7 +1232,7 @@ Theorem wfa_sound_notified cf l a : depth cf = 0 -> forallb not_remove (l ++ [a]
   (npend s' < npend s)%nat -> delivered s'.
 Proof.
   intros Hd Hn s s' Hlt.
-  assert (Hs' : s' = run cf init (l ++ [a])) by (rewrite run_app; reflexivity).
+  assert (Hs' : s' = run cf init (l ++ [a])) by (rewrite run_app; fold s; rewrite run_cons; reflexivity).
   apply CInv_acked_delivered.
   - rewrite Hs'. apply CInv_run; [assumption|assumption|apply CInv_init].
   - apply step_answered_acked. assumption.
